@@ -3228,3 +3228,30 @@ EXPLANATION += (
 ASSUMPTIONS += [
     "R5.20 recognises a counterpart only in output.py's pytd.Parameter constructions / Replace(mutated_type=) calls and in PrintVisitor.VisitSignature and the PrintVisitor methods it calls; a repair placed elsewhere would have to be added to the rule.",
 ]
+
+EXPLANATION += (
+    " R5.21 / R5.22 (rules/c05_smallscope.py) decide two print/parse agreements by evaluating the code of the "
+    "printer / reader, taken from /repo as an AST, on an exhaustive small scope (rules/_minieval.py plus local "
+    "closures; host str/list/re semantics; nothing from /repo is imported): R5.21 - the text VisitParameter "
+    "produces for `self` / `cls` parameters is the same whether the class stack EnterClass builds carries "
+    "templates (`Outer[T]`: the inferencer's AST) or not (the AST the reader builds from the printed stub has "
+    "template=()), for nesting depth 1-3, every subset of levels generic, names with and without module prefix, "
+    "bare and parameterised class types; a difference means the implicit first parameter is elided on one side "
+    "only, i.e. print(parse(print(ast))) != print(ast).  R5.22 - for each spelling PrintVisitor._FromTyping("
+    "'Literal') evaluates to (no name collision: `Literal`; the module defines its own `Literal`: `typing.Literal`), "
+    "_AnnotationVisitor.enter_Subscript on the python AST of `<spelling>['int']` (also nested in `list[...]`) "
+    "followed by visit_Pyval must hand the string constant back unchanged (a literal value, not a late "
+    "annotation; Definitions.matches_type is evaluated from definitions.py), and leave_Subscript must restore "
+    "the stack so that the context ends with the subscript.  Blind spots: everything outside the scope "
+    "(template parameters whose printed form contains dots or brackets, aliases of typing installed by "
+    "`import typing as t`, typing_extensions aliases), import bookkeeping side effects of the elision, and "
+    "any construct outside the evaluated fragment (analysis error, never a verdict).")
+ASSUMPTIONS += [
+    "R5.21: the stub reader builds classes without templates and leaves parameter type texts as printed "
+    "(confirmed on a scratch build: parse_string gives Outer.template == ()); PrintVisitor.Print of a "
+    "TemplateItem is what VisitTemplateItem returns for its type_param text.",
+    "R5.22: the world model of Definitions is identity alias resolution (_resolve_alias(name) == name), "
+    "resolve_type / new_type return opaque NamedType records; ast nodes are records with the fields of "
+    "ast.Name / ast.Attribute / ast.Subscript; a ParseError raised by enter_Subscript counts as 'the reader "
+    "rejects what the printer wrote', any other exception there is an analysis error.",
+]
